@@ -345,6 +345,7 @@ impl<'a> Gen<'a> {
             if mf { 3 } else { 0 },                       // 13 failing construct
             if self.opts.effects && *ty == Ty::Int { 4 } else { 0 }, // 14 effect
             if self.in_rec_ctx_for(ty) { 8 } else { 0 },  // 15 recursive call
+            if self.opts.effects { 6 } else { 0 },        // 16 discarded effectful / failing call
         ];
         match self.rng.weighted(&w) {
             0 => {
@@ -413,7 +414,91 @@ impl<'a> Gen<'a> {
                     (app(Expr::Proj(b(var("fx")), "tick".into()), vec![a]), f)
                 }
             }
-            _ => self.gen_rec_call(ty, d1, mf),
+            15 => self.gen_rec_call(ty, d1, mf),
+            _ => {
+                // a call whose result is discarded, reached every way C04 lists
+                self.feat("discarded-call");
+                let call = self.effect_form(d1);
+                let (body, f) = self.gen_expr(ty, d1, mf);
+                let pat = match self.rng.below(3) {
+                    0 => Pat::Wild,
+                    1 => Pat::Var(self.fresh("unused")),
+                    _ => {
+                        self.feat("discarded-in-record");
+                        // dead record / tuple holding the call
+                        let e = Expr::Let(Pat::Var(self.fresh("unused")), vec![], b(Expr::Record(vec![("q".into(), call), ("w".into(), int(1))], None)), b(body));
+                        return (e, true);
+                    }
+                };
+                (Expr::Let(pat, vec![], b(call), b(body)), f || true)
+            }
+        }
+    }
+
+    /// Int-typed call with an observable effect or a failure, through: direct identifier, record
+    /// field, module field, closure returned from a call, partial application, implicit argument,
+    /// built-in arithmetic (the one kind the optimiser may skip)
+    pub fn effect_form(&mut self, d: u32) -> Expr {
+        self.uses_fx = true;
+        let arg = if d > 0 && self.rng.chance(1, 3) { self.gen_expr(&Ty::Int, d.min(2), false).0 } else { int(self.rng.range(0, 9)) };
+        let fld = |r: &str, f: &str| Expr::Proj(b(var(r)), f.to_string());
+        match self.rng.below(14) {
+            0 => {
+                self.feat("fx-direct");
+                app(fld("fx", "tick"), vec![arg])
+            }
+            1 => {
+                self.feat("fx-record-field");
+                app(fld("hrec", "tickf"), vec![arg])
+            }
+            2 => {
+                self.feat("fail-record-field");
+                app(fld("hrec", "boomf"), vec![int(1)])
+            }
+            3 => {
+                self.feat("fx-returned-closure");
+                Expr::App(b(app(var("mk_tick"), vec![Expr::Unit])), vec![arg])
+            }
+            4 => {
+                self.feat("fail-returned-closure");
+                Expr::App(b(app(var("mk_boom"), vec![Expr::Unit])), vec![arg])
+            }
+            5 => {
+                self.feat("fx-partial-application");
+                Expr::App(b(app(var("papp"), vec![int(self.rng.range(0, 9))])), vec![arg])
+            }
+            6 => {
+                self.feat("fx-module-field");
+                app(fld("c04m", "tick"), vec![arg])
+            }
+            7 => {
+                self.feat("fail-module-field");
+                app(fld("c04m", "boom"), vec![arg])
+            }
+            8 => {
+                self.feat("dead-arith-overflow");
+                binop("#Int*", int(i64::MAX), int(2))
+            }
+            9 => {
+                self.feat("dead-arith-div0");
+                binop("#Int/", arg, int(0))
+            }
+            10 => {
+                self.feat("fail-direct-ident");
+                app(var("boom_direct"), vec![arg])
+            }
+            11 => {
+                self.feat("fx-boom-extern");
+                app(fld("fx", "boom"), vec![arg])
+            }
+            12 => {
+                self.feat("fail-unmatched-pattern");
+                Expr::Match(b(arg), vec![(Pat::Lit(Lit::Int(-77)), int(0))])
+            }
+            _ => {
+                self.feat("fail-explicit-error");
+                app(var("error"), vec![Expr::Lit(Lit::Str("dead".into()))])
+            }
         }
     }
 
@@ -1362,6 +1447,10 @@ pub struct Generated {
 }
 
 pub fn gen_program(rng: &mut Rng, opts: GenOpts) -> Generated {
+    gen_program_with(rng, opts, |b| b)
+}
+
+pub fn gen_program_with(rng: &mut Rng, opts: GenOpts, wrap: impl Fn(Expr) -> Expr) -> Generated {
     let allow_fail = rng.chance(opts.fail_pct, 100);
     let depth = opts.max_depth;
     let mut g = Gen::new(rng, opts);
@@ -1369,5 +1458,33 @@ pub fn gen_program(rng: &mut Rng, opts: GenOpts) -> Generated {
     let ty = g.gen_ty(2, true);
     let (body, f) = g.gen_expr(&ty, depth, allow_fail);
     let feats: Vec<&'static str> = g.feats.iter().cloned().collect();
+    let body = wrap(body);
     Generated { program: g.into_program(body), ty, feats, may_fail: f }
 }
+
+/// Helper definitions the C04 effect forms refer to, wrapped around a body (ordinary AST, so the
+/// reference interpreter and every printer understand them). `c04m` is bound by the preamble to
+/// `import! c04mod` (see C04_MODULE).
+pub fn wrap_effect_helpers(body: Expr) -> Expr {
+    let fld = |r: &str, f: &str| Expr::Proj(b(var(r)), f.to_string());
+    let x = || var("hx");
+    let hrec = Expr::Record(
+        vec![
+            ("tickf".into(), Expr::Lam(vec!["hx".into()], b(app(fld("fx", "tick"), vec![x()])))),
+            ("boomf".into(), Expr::Lam(vec!["hx".into()], b(Expr::If(b(binop("#Int==", x(), int(1))), b(app(var("error"), vec![Expr::Lit(Lit::Str("hb".into()))])), b(x()))))),
+        ],
+        None,
+    );
+    let mk_tick = Expr::Lam(vec!["hx".into()], b(app(fld("fx", "tick"), vec![x()])));
+    let mk_boom = Expr::Lam(vec!["hx".into()], b(app(var("error"), vec![Expr::Lit(Lit::Str("cb".into()))])));
+    let e = Expr::Let(Pat::Var("boom_direct".into()), vec!["hx".into()], b(app(var("error"), vec![Expr::Lit(Lit::Str("db".into()))])), b(body));
+    let e = Expr::Let(Pat::Var("papp".into()), vec!["ha".into(), "hb".into()], b(app(fld("fx", "tick2"), vec![var("ha"), var("hb")])), b(e));
+    let e = Expr::Let(Pat::Var("mk_boom".into()), vec!["hu".into()], b(mk_boom), b(e));
+    let e = Expr::Let(Pat::Var("mk_tick".into()), vec!["hu".into()], b(mk_tick), b(e));
+    Expr::Let(Pat::Var("hrec".into()), vec![], b(hrec), b(e))
+}
+
+pub const C04_MODULE: &str = "let fx = import! verif.fx
+let { error } = import! std.prim
+{ tick = \\x -> fx.tick (x #Int+ 100), boom = \\x -> error \"mb\" }
+";
